@@ -52,7 +52,7 @@ try:
     results = {}
     for cid in checks:
         rc, out = sh(f"./check {cid} --tier quick", cwd=ROOT, extra={"VERIF_REPO": mut})
-        line = next((l for l in out.splitlines() if "violated:" in l), "")
+        line = next((l for l in out.splitlines() if " violated" in l), "")
         results[cid] = {"exit": rc, "verdict": "CAUGHT" if rc == 1 and "VIOLATION property=" in out else ("MISSED" if rc == 0 else f"ERROR({rc})"), "first_violation": line.strip()[:400]}
     os.makedirs(dst, exist_ok=True)
     shutil.copy(patch, os.path.join(dst, "patch.diff"))
